@@ -449,6 +449,11 @@ def step (s : DState) (line : String) : DState × String :=
     | some bs => (s, decLine s.cfg s.ms.dict bs)
     | none => plain s "bad-op"
   | "tls" :: rest => (s, tlsLine rest)
+  | ["tlsq", cells] =>
+    -- cells of the table one after the other in one process: each cell's prediction is the cell's own (no state is carried)
+    let parts := (cells.splitOn ";").map fun c => (tlsLine (c.splitOn ",")).splitOn " | "
+    (s, String.intercalate " ; " (parts.map fun p => p.getD 0 "") ++ " | " ++
+        String.intercalate ";" (parts.map fun p => p.getD 1 "") ++ " | -")
   | "lsn" :: rest => (s, lsnLine rest)
   | "ctcp" :: rest => (s, ctcpLine rest)
   | ["ctrace", evs, answers] => (s, ctraceLine evs answers)
